@@ -97,7 +97,7 @@ var Controls = []Control{
 	{"C08", "nil reference not handled first", "markers/markers.go", `if reference == nil \{\n\t\treturn err == nil\n\t\}`, "if err == nil {\n\t\treturn reference == nil\n\t}", "R-NIL-SAFE"},
 	{"C08", "length check removed", "markers/markers.go", `\tif len\(m1\.types\) != len\(m2\.types\) \{\n.*?\n\t\treturn false\n\t\}\n`, "", "R-BOUNDS"},
 	{"C08", "Error() outside recover", "markers/markers.go", `m := errorMark\{msg: safeGetErrMsg\(err\)`, `m := errorMark{msg: err.Error()`, "R-RECOVER"},
-	{"C08", "IsAny gives up at a multi-cause node", "markers/markers.go", `if IsAny\(me, references\.\.\.\) \{\n\t\t\t\treturn true\n\t\t\t\}\n\t\t\}`, "if IsAny(me, references...) {\n\t\t\t\treturn true\n\t\t\t}\n\t\t\treturn false\n\t\t}", "R-LOOP-EXITS"},
+	{"C08", "IsAny gives up at a multi-cause node", "markers/markers.go", `if me != nil && IsAny\(me, references\.\.\.\) \{\n\t\t\t\treturn true\n\t\t\t\}\n\t\t\}`, "if me != nil && IsAny(me, references...) {\n\t\t\t\treturn true\n\t\t\t}\n\t\t\treturn false\n\t\t}", "R-LOOP-EXITS"},
 	// C09
 	{"C09", "Format bypasses the dispatcher", "telemetrykeys/with_telemetry.go", `func \(w \*withTelemetry\) Format\(s fmt\.State, verb rune\) \{ errbase\.FormatError\(w, s, verb\) \}`, `func (w *withTelemetry) Format(s fmt.State, verb rune) { fmt.Fprint(s, w.Error()) }`, "R-FMT-DELEGATE"},
 	{"C09", "annotation printed outside the detail region", "assert/assert.go", `if p\.Detail\(\) \{\n\t\tp\.Printf\("assertion failure"\)\n\t\}`, `p.Printf("assertion failure")`, "R-SHAPE"},
@@ -286,4 +286,9 @@ var Controls = []Control{
 	{"C16", "package domain derived from the caller's function name", "domains/domains.go", `_, f, _, _ := runtime\.Caller\(1 \+ depth\)\n\treturn Domain\("error domain: pkg " \+ filepath\.Dir\(f\)\)`, "pc, _, _, _ := runtime.Caller(1 + depth)\n\treturn Domain(\"error domain: pkg \" + filepath.Dir(runtime.FuncForPC(pc).Name()))", "R-PKG-DOMAIN"},
 	{"C19", "join of one error returns it", "join/join.go", `\tif n == 0 \{\n\t\treturn nil\n\t\}\n`, "\tif n == 0 {\n\t\treturn nil\n\t}\n\tif n == 1 {\n\t\tfor _, err := range errs {\n\t\t\tif err != nil {\n\t\t\t\treturn err\n\t\t\t}\n\t\t}\n\t}\n", "R-JOIN-NODE"},
 	{"C01", "prefix found by a front search of the text", "errutil/redactable.go", `import \(\n(.*?)return l\.prefix\.StripMarkers\(\), l\.SafeDetails\(\)`, "import (\n\t\"strings\"\n${1}return strings.SplitN(l.Error(), \": \", 2)[0], l.SafeDetails()", "R-PREFIX-CUT"},
+	// round 10
+	{"C08", "IsAny recurses into nil branches", "markers/markers.go", `if me != nil && IsAny\(me, references\.\.\.\) \{`, `if IsAny(me, references...) {`, "R-ISANY-NIL"},
+	{"C05", "wrapper-encoder adapter around a nil function", "errbase/encode.go", `\tif encoder == nil \{\n\t\t// Unregister, like the other Register functions do\.\n\t\tRegisterWrapperEncoderWithMessageType\(theType, nil\)\n\t\treturn\n\t\}\n`, "", "R-REGISTRY-CLOSURE"},
+	{"C09", "newlines held back outside the detail mode", "errbase/format_error.go", `\t\t\tif !s\.wantDetail \{\n\t\t\t\t// Outside of the detail mode.*?\t\t\t\tcontinue\n\t\t\t\}\n`, "", "R-WRITE-FAITHFUL"},
+	{"C09", "newline pass-through spelled flat", "errbase/format_error.go", `\t\tif c == '\\n' \{\n\t\t\tif !s\.wantDetail \{\n\t\t\t\t// Outside of the detail mode.*?\t\t\t\tcontinue\n\t\t\t\}\n`, "\t\tif c == '\\n' && !s.wantDetail {\n\t\t\ts.multiLine = true\n\t\t\ts.notEmpty = true\n\t\t\tcontinue\n\t\t}\n\t\tif c == '\\n' {\n", CleanVariant},
 }
